@@ -601,6 +601,37 @@ theorem state_commitment_spec_after_head_state_migration_partial (pre014 : Bool)
   state_commitment_spec_after_head_state_migration pre014 ds1 ds2 hd1 hd2 legacy native sm'
     (state_backends_agree_unless_system_contract_emptied pre014 ds1 hd1 hk legacy hl).1 hn h
 
+/-- **The whole upgrade path, legacy side transcribed.** `ls` = the database of the legacy node after `ds1`
+(`LState.run true`: core/deprecatedstate statement by statement, with the proposed repair of finding 1), `native` =
+the trie2 database of the same history; `StateM.upgradeF ls.cls ls.nonce native` = the `Contract` bucket as the
+migrator writes it from `ls`'s `ContractClassHash` / `ContractNonce` buckets (no storage roots) next to those tries.
+Every accepted continuation `ds2` computes the protocol commitment of the abstract state of `ds1 ++ ds2`, and every
+record is then rootless or exact. -/
+theorem state_commitment_spec_after_head_state_migration_transcribed (pre014 : Bool) (ds1 ds2 : List State.Diff)
+    (hd1 : ∀ d ∈ ds1, State.ValidDiff d) (hd2 : ∀ d ∈ ds2, State.ValidDiff d)
+    (ls : LState.LSt) (native sm' : StateM.StM)
+    (hl : LState.run true ds1 LState.LSt.empty = some ls)
+    (hn : StateM.run true ds1 StateM.StM.empty = some native)
+    (h : StateM.run true ds2 (StateM.upgradeF ls.cls ls.nonce native) = some sm') :
+    StateM.commitment pre014 sm' = State.absCommitment pre014 (State.absState (ds1 ++ ds2)) ∧
+    StateM.ZeroOrExact sm' :=
+  StateM.upgradeF_run_spec pre014 ds1 ds2 hd1 hd2 true (Or.inl rfl) ls native sm' hl hn h
+
+/-- ... for the legacy backend of the UNCHANGED tree (`LState.run false`). Partial: histories in which no system
+contract is emptied before the upgrade (known finding 1: else the legacy database keeps a class-hash entry for the
+emptied system contract and the migrator writes a record the trie2 database has no leaf for; exercised by the
+harness, 15 such histories per quick run, roots stay right). -/
+theorem state_commitment_spec_after_head_state_migration_transcribed_partial (pre014 : Bool) (ds1 ds2 : List State.Diff)
+    (hd1 : ∀ d ∈ ds1, State.ValidDiff d) (hd2 : ∀ d ∈ ds2, State.ValidDiff d)
+    (hk : State.NoSystemContractEmptied State.AbsSt.empty ds1)
+    (ls : LState.LSt) (native sm' : StateM.StM)
+    (hl : LState.run false ds1 LState.LSt.empty = some ls)
+    (hn : StateM.run true ds1 StateM.StM.empty = some native)
+    (h : StateM.run true ds2 (StateM.upgradeF ls.cls ls.nonce native) = some sm') :
+    StateM.commitment pre014 sm' = State.absCommitment pre014 (State.absState (ds1 ++ ds2)) ∧
+    StateM.ZeroOrExact sm' :=
+  StateM.upgradeF_run_spec pre014 ds1 ds2 hd1 hd2 false (Or.inr hk) ls native sm' hl hn h
+
 set_option maxRecDepth 8000 in
 /-- non-vacuity: contract 0x7 is deployed with two storage slots (legacy node and trie2 database), the node is
 upgraded — the migrated record of 0x7 has root zero although its storage is not empty —, then a NONCE-ONLY block:
@@ -619,6 +650,25 @@ example :
            (State.contractLeaf (.felt 5) (.felt 0) (.felt 1)))).1)
      | _, _ => false) = true := by decide
 
+
+set_option maxRecDepth 8000 in
+/-- non-vacuity of the transcribed upgrade path: the unrepaired legacy node deploys 0x7 with two slots and writes,
+then empties, a slot of system contract 0x1 (whose class-hash entry it keeps: the migrator writes a record for it);
+upgrade; a nonce-only block on 0x7 and a new slot of 0x1: accepted, same root as the natively built database -/
+example :
+    (match LState.run false [⟨[], [], [(State.slot7, .felt 5)], [], [],
+              [(State.slot7, [(State.addr1, .felt 3), (State.slot7, .felt 4)]), (State.addr1, [(State.slot7, .felt 4)])]⟩,
+            ⟨[], [], [], [], [], [(State.addr1, [(State.slot7, .felt 0)])]⟩] LState.LSt.empty,
+           StateM.run true [⟨[], [], [(State.slot7, .felt 5)], [], [],
+              [(State.slot7, [(State.addr1, .felt 3), (State.slot7, .felt 4)]), (State.addr1, [(State.slot7, .felt 4)])]⟩,
+            ⟨[], [], [], [], [], [(State.addr1, [(State.slot7, .felt 0)])]⟩] StateM.StM.empty with
+     | some ls, some native =>
+       let up := StateM.upgradeF ls.cls ls.nonce native
+       let post : List State.Diff := [State.nonce7, ⟨[], [], [], [], [], [(State.addr1, [(State.slot7, .felt 8)])]⟩]
+       ((State.alookup up.recs State.addr1).isSome && (State.alookup native.recs State.addr1).isNone) &&
+       ((StateM.run true post up).map (StateM.commitment true) == (StateM.run true post native).map (StateM.commitment true)) &&
+       (StateM.run true post up).isSome
+     | _, _ => false) = true := by decide
 
 /-! ## `core/deprecatedstate` transcribed (round 5)
 
